@@ -365,14 +365,8 @@ func checkC07(r *Run) []Violation {
 			if d.ServerID != r.sc.ServerID {
 				vs = append(vs, Violation{"C07", "server-id", fmt.Sprintf("dump request carries server id %d, configured %d", d.ServerID, r.sc.ServerID), i})
 			}
-			for _, c := range m.CmdsAfterDump {
-				if c != "COM_QUIT" {
-					vs = append(vs, Violation{"C07", "dump-count", "command after the dump request: " + c, i})
-				}
-			}
-			for _, c := range m.OtherCmds {
-				vs = append(vs, Violation{"C07", "dump-count", "unexpected command: " + c, i})
-			}
+			// other commands (ping, register-slave, a later COM_QUIT) are not the
+			// property's business; only a second dump request is ("exactly one")
 			req := Pos{d.File, int64(d.Offset)}
 			if i == 0 || att.Plan.FreshStreamer && len(acceptedUnits) == 0 {
 				if req != r.sc.Start {
@@ -547,6 +541,9 @@ func checkC08(r *Run) []Violation {
 	var vs []Violation
 	for _, s := range r.Stability {
 		vs = append(vs, Violation{"C08", "mutated-after-delivery", s, 0})
+	}
+	for _, s := range r.LateScribble {
+		vs = append(vs, Violation{"C08", "scribble-propagated", s, 0})
 	}
 	for _, c := range r.calls {
 		if c.ScribbleNote != "" {
